@@ -261,6 +261,7 @@ def run(run, ix, tier):
     check_pass_through(run, ix)
     check_cache_hit_rounding(run, ix)
     check_polyval_constant(run, ix)
+    check_guard_bit_exits(run, ix)
     # the engine treats exact_nthroot(s, n, prec, approx) as bounded by prec (round_flow.GUARD_BOUNDED): the
     # guard that makes this true is verified here as well
     from ..report import SubRun
@@ -685,3 +686,65 @@ def check_polyval_constant(run, ix):
         run.fail(Finding('B-R8p', f.file, f.qualname, norm(conv[0]), 'for a one-element coefficient list the Horner loop '
                          'does not run and the converted coefficient is returned as given: polyval([c], 3) with a '
                          '199-bit c at 20 bits has 199 bits', line=conv[0].lineno))
+
+
+# --------------------------------------------------------------------------- B-R12
+def check_guard_bit_exits(run, ix):
+    """B-R12 (fourth C10 hunt; repairs 06a24b4, 2a12452).  Two special-function entry points are plain @defun functions
+    (not @defun_wrapped, which rounds for them) that compute under a raised precision and only put the precision back:
+    (a) `rs_zeta` / `rs_z`, through which `zeta` and `siegelz` return on the Riemann-Siegel route -- every return is `+v`,
+    a `ctx.conj(...)` (which rounds) or the function applied to the reflected argument; (b) in hypergeometric.py no
+    @defun function returns a bare name from INSIDE a try block that raises `ctx.prec` and restores it in `finally` (the
+    value then carries the guard bits: hyper([1,2,3],[4],-0.02) had 62 bits at 53)."""
+    run.rule('B-R12', floor=4, desc='plain @defun special functions round what they computed under a raised precision')
+    RS = 'mpmath/functions/rszeta.py'
+    for qn in ('rs_zeta', 'rs_z'):
+        f = ix.func(RS, qn)
+        rets = [r for r in _walk_own(f.node) if isinstance(r, ast.Return) and r.value is not None]
+        if not rets:
+            raise AnalysisError('%s: no return' % qn)
+        for r in rets:
+            v = r.value
+            ok = (isinstance(v, ast.UnaryOp) and isinstance(v.op, ast.UAdd)) or \
+                (isinstance(v, ast.Call) and norm(v.func) in ('ctx.conj', qn, 'ctx.' + qn)) or \
+                (isinstance(v, ast.Name) and any(isinstance(a, ast.Assign) and norm(a.targets[0]) == v.id and
+                                                 isinstance(a.value, ast.Call) and norm(a.value.func) == 'ctx.conj'
+                                                 for a in _walk_own(f.node)))
+            if ok:
+                run.ok('B-R12', '%s: `%s`' % (qn, norm(r, 50)))
+            else:
+                run.fail(Finding('B-R12', RS, qn, norm(r),
+                                 'the value computed at the raised precision of the Riemann-Siegel routines is returned as it '
+                                 'is (the function only restores ctx.prec): zeta(0.5+100000j) at 53 bits carries 90- and '
+                                 '92-bit mantissas, rs_z(100000) 74 bits', line=r.lineno))
+    HY = 'mpmath/functions/hypergeometric.py'
+    m = ix.module(HY)
+    n = 0
+    for f in m.funcs.values():
+        if f.parent is not None or not any(norm(d) == 'defun' for d in f.node.decorator_list):
+            continue
+        for tr in _walk_own(f.node):
+            if not (isinstance(tr, ast.Try) and tr.finalbody):
+                continue
+            restores = any(isinstance(x, ast.Assign) and norm(x.targets[0]) == 'ctx.prec' for x in tr.finalbody)
+            raised = [x for b in tr.body for x in [b] + [y for y in ast.walk(b)]
+                      if isinstance(x, ast.AugAssign) and norm(x.target) == 'ctx.prec' and isinstance(x.op, ast.Add)]
+            if not (restores and raised):
+                continue
+            n += 1
+            bad = None
+            for b in tr.body:
+                if isinstance(b, (ast.FunctionDef, ast.ClassDef)):
+                    continue
+                for r in [b] + [y for y in _walk_own(b)]:
+                    if isinstance(r, ast.Return) and isinstance(r.value, ast.Name) and r.lineno > raised[0].lineno:
+                        bad = r
+            if bad is None:
+                run.ok('B-R12', '%s: nothing accumulated under `ctx.prec += ...` leaves the try block unrounded' % f.qualname)
+            else:
+                run.fail(Finding('B-R12', HY, f.qualname, norm(bad),
+                                 'a value accumulated under the raised precision leaves from inside the try block, and the '
+                                 'function is not wrapped: hyper([1,2,3],[4],-0.02) at 53 bits has a 62-bit mantissa '
+                                 '(30 at 20 bits)', line=bad.lineno))
+    if n < 1:
+        raise AnalysisError('B-R12: no raised-precision try block in hypergeometric.py')
